@@ -178,11 +178,16 @@ def _cases(arg):
                 "measured_high": lambda q, a, b: [ops.MeasureHomodyne(0.1) | q[11], ops.MeasureHomodyne(0.3) | q[5], ops.Xgate(q[11].par) | q[3],
                                                   ops.Zgate(q[5].par) | q[10]],
             }
+            # a feed-forward program saved after it has been run: the parameter still stands for the measurement, not for the last outcome
+            variants["measured_after_run"] = lambda q, a, b: [ops.MeasureHomodyne(0.1) | q[0], ops.Xgate(2 * q[0].par) | q[1]]
             name = list(variants)[idx]
             prog = sf.Program(12 if name.endswith("high") else 2)
             a, b = prog.params("a", "b")
             with prog.context as q:
                 r = variants[name](q, a, b)
+            if name == "measured_after_run":
+                np.random.seed(7)
+                sf.Engine("gaussian").run(prog)
             if r is not None:
                 roundtrip("symbolic:" + name, prog, {"dag": name.endswith("dagger"), "target": False, "symbolic": name})
         elif kind == "multi":
@@ -215,6 +220,8 @@ def _cases(arg):
                 ops.Sgate(0.3, 0.0) | q[-1]
                 ops.BSgate(p[0], 0.1) | (q[-2], q[-1])
                 for i in range(1, narr - 1):
+                    if idx % 3 == 2 and i == 1:
+                        continue        # an array that no operation uses (and that is not the last one) keeps its place
                     ops.Rgate(p[i]) | q[-1]
                 ops.MeasureHomodyne(p[narr - 1]) | q[0]
             roundtrip("tdm:%d arrays, N=%s" % (narr, prog.N), prog, {"dag": False, "target": False, "symbolic": "tdm", "narrays": narr})
@@ -236,7 +243,7 @@ def c14(chk):
                        "this is encode/decode fidelity at the edge of the technique (level: exploration)"]
     common.warm(fock=False)
     ncat = 62
-    jobs = [("single", i) for i in range(ncat)] + [("symbolic", i) for i in range(7)] + [("multi", i) for i in range(24 if tier == "quick" else 200)] + \
+    jobs = [("single", i) for i in range(ncat)] + [("symbolic", i) for i in range(8)] + [("multi", i) for i in range(24 if tier == "quick" else 200)] + \
            [("tdm", i) for i in range(10 if tier == "quick" else 20)]
     res = common.pmap(_cases, jobs, chunksize=2)
     cases, owners = [], []
